@@ -50,7 +50,12 @@ CONSTANTS
   ImportToks,  \* import tokens
   CmtToks,     \* body / helper tokens whose source text contains a "/* ... */" comment
   NeverPruned, \* import tokens that imports.Prune never removes (dot and blank imports)
-  Cfgs,        \* set of configurations [rl |-> "single"|"follow", el |-> "single"|"follow"]
+  RootToks,    \* customisations of the root resolver struct `type Resolver struct{...}` in resolver.go the user may
+               \* write ("rf": fields added, "re": embedded types + doc comment, ...)
+  Cfgs,        \* set of configurations [rl |-> "single"|"follow", el |-> "single"|"follow", ab |-> "none"|"model"|"hand"]
+               \* rl / el: resolver / exec layout; ab: `autobind:` lists the MODEL OUTPUT PACKAGE itself ("model": the
+               \* package only holds a doc file next to models_gen.go, "hand": it also holds a hand-written model that
+               \* a schema type binds to) - every Generate of a history then loads the previous models_gen.go's package
   ImpPairs,    \* fields whose resolver bodies may use user imports (bounds AddImport; Pairs = no restriction)
   InitSchemas, \* schemas a history may start from (the project has just been generated for the first time)
   MaxHist,     \* bound on the history length (finitises the model)
@@ -63,6 +68,8 @@ VARIABLES
   texists,  \* [non-root types -> BOOLEAN]   : the type is declared
   cfg,      \* element of Cfgs, fixed at Init
   meth,     \* [RFiles -> [Pairs -> MethRec]]: resolver method declarations per resolver file
+  root,     \* declaration of the root resolver type in resolver.go: "gen" (the template's `type Resolver struct{}`)
+            \* or a token of RootToks (the user customised it: fields, embedded types, doc comment)
   helpers,  \* [RFiles -> SUBSET HelperToks] : other declarations per resolver file
   imports,  \* [RFiles -> SUBSET ImportToks]
   warn,     \* [RFiles -> SUBSET WarnTok]    : content of the trailing WARNING block in the file
@@ -74,7 +81,7 @@ VARIABLES
   n,        \* history length
   act       \* label of the last step (observation only)
 
-vars == <<schema, texists, cfg, meth, helpers, imports, warn, gen, ok, comp, dirty, enc, n, act>>
+vars == <<schema, texists, cfg, meth, root, helpers, imports, warn, gen, ok, comp, dirty, enc, n, act>>
 
 RFiles   == Files \cup {"resolver"}
 Types    == {TypeOf[p] : p \in Pairs}
@@ -83,8 +90,9 @@ NoMeth   == [body |-> "none", doc |-> "none", named |-> FALSE, uses |-> {}]
 Default  == [body |-> "gen",  doc |-> "gen",  named |-> FALSE, uses |-> {}]
 HTok(h)    == [k |-> "h", id |-> h, body |-> "-",    named |-> FALSE,   uses |-> {}]
 MTok(p, m) == [k |-> "m", id |-> p, body |-> m.body, named |-> m.named, uses |-> m.uses]
-\* the template's own `type Resolver struct{}` of the single-file layout (deviation "rootLeftover")
-RootTok    == [k |-> "r", id |-> "Resolver", body |-> "-", named |-> FALSE, uses |-> {}]
+\* the declaration of the root resolver type inside a WARNING block: id = "gen" for the template's own
+\* `type Resolver struct{}` (deviation "rootLeftover"), else the user's customisation
+RootTok(t) == [k |-> "r", id |-> t, body |-> "-", named |-> FALSE, uses |-> {}]
 HasCmt(t)  == (t.k = "h" /\ t.id \in CmtToks) \/ (t.k = "m" /\ t.body \in CmtToks)
 
 Has(f, p)   == meth[f][p].body # "none"
@@ -95,7 +103,7 @@ FirstOf(S)  == FileOrder[CHOOSE i \in 1..Len(FileOrder) :
 Fingerprint == [s |-> schema, t |-> texists, c |-> cfg]
 Max3(a, b)  == LET r(x) == CASE x = "clean" -> 0 [] x = "go" -> 1 [] x = "adds" -> 2 [] OTHER -> 3
                IN IF r(a) >= r(b) THEN a ELSE b
-OnlyMethods == \A f \in RFiles : helpers[f] = {}
+OnlyMethods == (\A f \in RFiles : helpers[f] = {}) /\ root = "gen"
 
 \* a freshly generated project: every live field has the template's default resolver in its file
 Init ==
@@ -105,6 +113,7 @@ Init ==
   /\ meth    = [f \in RFiles |-> [p \in Pairs |->
                    IF schema[p] # "none" /\ f = (IF cfg.rl = "single" THEN "resolver" ELSE schema[p])
                    THEN Default ELSE NoMeth]]
+  /\ root    = "gen"
   /\ helpers = [f \in RFiles |-> {}]
   /\ imports = [f \in RFiles |-> {}]
   /\ warn    = [f \in RFiles |-> {}]
@@ -124,14 +133,14 @@ EditBody(f, p, e) ==
   /\ meth' = [meth EXCEPT ![f][p] = [body |-> e.body, doc |-> e.doc, named |-> e.named, uses |-> @.uses]]
   /\ dirty' = Max3(dirty, "go")
   /\ act' = [name |-> "EditBody", f |-> f, p |-> p, e |-> e]
-  /\ UNCHANGED <<schema, texists, cfg, helpers, imports, warn, gen, ok, comp, enc>>
+  /\ UNCHANGED <<schema, texists, cfg, root, helpers, imports, warn, gen, ok, comp, enc>>
 
 AddHelper(f, h) ==
   /\ Step /\ (\E p \in Pairs : Has(f, p)) /\ h \notin helpers[f]
   /\ helpers' = [helpers EXCEPT ![f] = @ \cup {h}]
   /\ dirty' = Max3(dirty, "go")
   /\ act' = [name |-> "AddHelper", f |-> f, h |-> h]
-  /\ UNCHANGED <<schema, texists, cfg, meth, imports, warn, gen, ok, comp, enc>>
+  /\ UNCHANGED <<schema, texists, cfg, meth, root, imports, warn, gen, ok, comp, enc>>
 
 \* the user imports i in file f and uses it in the body of method p
 AddImport(f, p, i) ==
@@ -140,7 +149,7 @@ AddImport(f, p, i) ==
   /\ meth' = [meth EXCEPT ![f][p].uses = @ \cup {i}]
   /\ dirty' = Max3(dirty, "go")
   /\ act' = [name |-> "AddImport", f |-> f, p |-> p, i |-> i]
-  /\ UNCHANGED <<schema, texists, cfg, helpers, warn, gen, ok, comp, enc>>
+  /\ UNCHANGED <<schema, texists, cfg, root, helpers, warn, gen, ok, comp, enc>>
 
 \* the user's editor re-saves resolver file f with another encoding (CRLF / mixed line endings, no final
 \* newline, UTF-8 BOM): the code is the same code, so nothing else changes - and Generate must cope
@@ -149,7 +158,16 @@ Resave(f, e) ==
   /\ enc' = [enc EXCEPT ![f] = e]
   /\ dirty' = Max3(dirty, "go")
   /\ act' = [name |-> "Resave", f |-> f, en |-> e]
-  /\ UNCHANGED <<schema, texists, cfg, meth, helpers, imports, warn, gen, ok, comp>>
+  /\ UNCHANGED <<schema, texists, cfg, meth, root, helpers, imports, warn, gen, ok, comp>>
+
+\* the user customises the root resolver struct in resolver.go (adds fields / embeds a type / attaches a doc
+\* comment): in the follow-schema layout resolver.go is never rewritten, in the single-file layout it is
+EditRoot(t) ==
+  /\ Step /\ t \in RootToks /\ root # t
+  /\ root' = t
+  /\ dirty' = Max3(dirty, "go")
+  /\ act' = [name |-> "EditRoot", rt |-> t]
+  /\ UNCHANGED <<schema, texists, cfg, meth, helpers, imports, warn, gen, ok, comp, enc>>
 
 (* user edits of the schema *)
 
@@ -159,28 +177,28 @@ AddField(p, sf) ==
   /\ texists' = IF TypeOf[p] \in NonRoot THEN [texists EXCEPT ![TypeOf[p]] = TRUE] ELSE texists
   /\ dirty' = Max3(dirty, "adds")
   /\ act' = [name |-> "AddField", p |-> p, sf |-> sf]
-  /\ UNCHANGED <<cfg, meth, helpers, imports, warn, gen, ok, comp, enc>>
+  /\ UNCHANGED <<cfg, meth, root, helpers, imports, warn, gen, ok, comp, enc>>
 
 RemoveField(p) ==
   /\ Step /\ Live(p)
   /\ schema' = [schema EXCEPT ![p] = "none"]
   /\ dirty' = "other"
   /\ act' = [name |-> "RemoveField", p |-> p]
-  /\ UNCHANGED <<texists, cfg, meth, helpers, imports, warn, gen, ok, comp, enc>>
+  /\ UNCHANGED <<texists, cfg, meth, root, helpers, imports, warn, gen, ok, comp, enc>>
 
 RenameField(p, q) ==
   /\ Step /\ Live(p) /\ ~Live(q) /\ p # q /\ TypeOf[p] = TypeOf[q]
   /\ schema' = [schema EXCEPT ![q] = schema[p], ![p] = "none"]
   /\ dirty' = "other"
   /\ act' = [name |-> "RenameField", p |-> p, q |-> q]
-  /\ UNCHANGED <<texists, cfg, meth, helpers, imports, warn, gen, ok, comp, enc>>
+  /\ UNCHANGED <<texists, cfg, meth, root, helpers, imports, warn, gen, ok, comp, enc>>
 
 MoveField(p, sf) ==
   /\ Step /\ Live(p) /\ schema[p] # sf
   /\ schema' = [schema EXCEPT ![p] = sf]
   /\ dirty' = "other"
   /\ act' = [name |-> "MoveField", p |-> p, sf |-> sf]
-  /\ UNCHANGED <<texists, cfg, meth, helpers, imports, warn, gen, ok, comp, enc>>
+  /\ UNCHANGED <<texists, cfg, meth, root, helpers, imports, warn, gen, ok, comp, enc>>
 
 RemoveType(t) ==
   /\ Step /\ t \in NonRoot /\ texists[t]
@@ -188,7 +206,7 @@ RemoveType(t) ==
   /\ texists' = [texists EXCEPT ![t] = FALSE]
   /\ dirty' = "other"
   /\ act' = [name |-> "RemoveType", t |-> t]
-  /\ UNCHANGED <<cfg, meth, helpers, imports, warn, gen, ok, comp, enc>>
+  /\ UNCHANGED <<cfg, meth, root, helpers, imports, warn, gen, ok, comp, enc>>
 
 ----------------------------------------------------------------------------
 (* The generator run.  GenResult(D) is the successor under deviation set D. *)
@@ -231,10 +249,14 @@ NewImports(f, D) ==
   IF f \notin RegenOf(D) THEN imports[f]
   ELSE {i \in imports[f] : i \in NeverPruned \/ \E p \in Pairs : i \in NewMeth(f, p, D).uses} \ DroppedImports(f, D)
 
-\* Deviation "rootLeftover" (pinned tree, single-file layout): the existing `type Resolver struct{}` is not
-\* marked as copied, so every run on an existing resolver.go puts it into the WARNING block (and emits a
-\* fresh one): the first re-run of a freshly generated project changes the file.
-WarnOf(f, D) == Leftover(f) \cup (IF "rootLeftover" \in D /\ cfg.rl = "single" /\ f = "resolver" THEN {RootTok} ELSE {})
+\* The root resolver type.  Intended design: the existing declaration is carried over as it is (whatever the
+\* user made of it).  Deviation "rootLeftover" (pinned tree, single-file layout): the existing declaration is
+\* not marked as copied, so every run on an existing resolver.go puts it into the WARNING block and the
+\* template emits a fresh `type Resolver struct{}`: the first re-run of a freshly generated project changes the
+\* file, and a customised root struct moves into the comment (REPEATED there - not lost).
+RootMoves(D) == "rootLeftover" \in D /\ cfg.rl = "single"
+NewRoot(D)   == IF RootMoves(D) THEN "gen" ELSE root
+WarnOf(f, D) == Leftover(f) \cup (IF RootMoves(D) /\ f = "resolver" THEN {RootTok(root)} ELSE {})
 
 Broken(D) == "warnNesting" \in D /\ \E f \in RegenOf(D) : \E t \in Leftover(f) : HasCmt(t)
 
@@ -254,8 +276,9 @@ AddsOnly == dirty # "other" /\ OnlyMethods
 
 GenResult(D) ==
   IF Broken(D)
-  THEN [meth |-> meth, helpers |-> helpers, imports |-> imports, warn |-> warn, ok |-> FALSE, comp |-> "no"]
+  THEN [meth |-> meth, root |-> root, helpers |-> helpers, imports |-> imports, warn |-> warn, ok |-> FALSE, comp |-> "no"]
   ELSE [meth    |-> [f \in RFiles |-> [p \in Pairs |-> NewMeth(f, p, D)]],
+        root    |-> NewRoot(D),
         helpers |-> [f \in RFiles |-> IF f \in RegenOf(D) THEN {} ELSE helpers[f]],
         imports |-> [f \in RFiles |-> NewImports(f, D)],
         warn    |-> [f \in RFiles |-> IF f \in RegenOf(D) THEN WarnOf(f, D) ELSE warn[f]],
@@ -266,7 +289,7 @@ GenResult(D) ==
 Generate(seed, dir, procs) ==
   /\ Step
   /\ LET r == GenResult(Dev) IN
-     /\ meth' = r.meth /\ helpers' = r.helpers /\ imports' = r.imports /\ warn' = r.warn
+     /\ meth' = r.meth /\ root' = r.root /\ helpers' = r.helpers /\ imports' = r.imports /\ warn' = r.warn
      /\ ok' = r.ok /\ comp' = r.comp
      /\ act' = [name |-> "Generate", seed |-> seed, dir |-> dir, procs |-> procs,
                 devs |-> Fired(Dev), regen |-> RegenOf(Dev), addsOnly |-> AddsOnly, wasClean |-> (dirty = "clean")]
@@ -286,6 +309,7 @@ Next ==
   \/ \E f \in RFiles, h \in HelperToks : AddHelper(f, h)
   \/ \E f \in RFiles, p \in Pairs, i \in ImportToks : AddImport(f, p, i)
   \/ \E f \in RFiles, e \in EncToks : Resave(f, e)
+  \/ \E t \in RootToks : EditRoot(t)
   \/ \E p \in Pairs, sf \in Files : AddField(p, sf)
   \/ \E p \in Pairs : RemoveField(p)
   \/ \E p \in Pairs, q \in Pairs : RenameField(p, q)
@@ -307,6 +331,7 @@ TypeOK ==
   /\ texists \in [NonRoot -> BOOLEAN]
   /\ cfg \in Cfgs
   /\ \A f \in RFiles, p \in Pairs : MethRecOK(meth[f][p])
+  /\ root \in {"gen"} \cup RootToks
   /\ \A f \in RFiles : helpers[f] \subseteq HelperToks /\ imports[f] \subseteq ImportToks
   /\ ok \in BOOLEAN /\ comp \in {"yes", "unk", "no"} /\ dirty \in {"clean", "go", "adds", "other"}
   /\ enc \in [RFiles -> {"lf"} \cup EncToks]
@@ -330,7 +355,7 @@ GenerateTotal == (ok /\ n < MaxHist) => ENABLED GenerateAny
 (*     the implementation predicted for that step.                                                       *)
 
 GenStep == act'.name = "Generate" /\ n' = n + 1
-PostRec(me, he, im, wa, o, co) == [meth |-> me, helpers |-> he, imports |-> im, warn |-> wa, ok |-> o, comp |-> co]
+PostRec(me, ro, he, im, wa, o, co) == [meth |-> me, root |-> ro, helpers |-> he, imports |-> im, warn |-> wa, ok |-> o, comp |-> co]
 SameCode(a, b) == a.body = b.body /\ a.named = b.named /\ a.uses = b.uses
 SameDoc(a, b)  == a.doc = "none" \/ a.doc = b.doc
 
@@ -349,8 +374,11 @@ ImportsKeptP(r) ==
      (i \in NeverPruned \/ \E p \in Pairs : r.meth[f][p].body # "none" /\ i \in r.meth[f][p].uses) => i \in r.imports[f]
 
 \* C19: the code of every other declaration is still present in the output of that run:
-\*      as a declaration of some resolver file, or inside the warning block of its file
+\*      as a declaration of some resolver file, or inside the warning block of its file.
+\*      That includes TYPE declarations and among them the root resolver struct the user customised:
+\*      kept in place, or REPEATED in the warning block of resolver.go - never replaced by an empty struct
 DeclsKeptP(r) ==
+  /\ root # "gen" => (r.root = root \/ RootTok(root) \in r.warn["resolver"])
   /\ \A f \in RFiles : \A h \in helpers[f] : h \in r.helpers[f] \/ HTok(h) \in r.warn[f]
   /\ \A f \in RFiles : \A p \in Pairs : Has(f, p) =>
         \/ \E g \in RFiles : r.meth[g][p].body # "none" /\ SameCode(meth[f][p], r.meth[g][p])
@@ -367,7 +395,7 @@ CompileKeptP(r) == (comp = "yes" /\ AddsOnly) => r.comp # "no"
 \*      content of the last run only, so a file may lose its block - but nothing may be added to it
 IdempotentP(r) ==
   dirty = "clean" =>
-     /\ r.meth = meth /\ r.helpers = helpers /\ r.imports = imports /\ r.ok = ok
+     /\ r.meth = meth /\ r.root = root /\ r.helpers = helpers /\ r.imports = imports /\ r.ok = ok
      /\ \A f \in RFiles : r.warn[f] = {} \/ r.warn[f] = warn[f]
 
 PropNames == {"MethodsKept", "StubsComplete", "ImportsKept", "DeclsKept", "FilesParse", "CompileKept", "Idempotent"}
@@ -381,13 +409,13 @@ Holds(name, r) ==
     [] name = "Idempotent"    -> IdempotentP(r)
 Viol(r) == {name \in PropNames : ~Holds(name, r)}
 
-MethodsKept   == [][GenStep => MethodsKeptP(PostRec(meth', helpers', imports', warn', ok', comp'))]_vars
-StubsComplete == [][GenStep => StubsCompleteP(PostRec(meth', helpers', imports', warn', ok', comp'))]_vars
-ImportsKept   == [][GenStep => ImportsKeptP(PostRec(meth', helpers', imports', warn', ok', comp'))]_vars
-DeclsKept     == [][GenStep => DeclsKeptP(PostRec(meth', helpers', imports', warn', ok', comp'))]_vars
-FilesParse    == [][GenStep => FilesParseP(PostRec(meth', helpers', imports', warn', ok', comp'))]_vars
-CompileKept   == [][GenStep => CompileKeptP(PostRec(meth', helpers', imports', warn', ok', comp'))]_vars
-Idempotent    == [][GenStep => IdempotentP(PostRec(meth', helpers', imports', warn', ok', comp')) /\ (dirty = "clean" => gen' = gen)]_vars
+MethodsKept   == [][GenStep => MethodsKeptP(PostRec(meth', root', helpers', imports', warn', ok', comp'))]_vars
+StubsComplete == [][GenStep => StubsCompleteP(PostRec(meth', root', helpers', imports', warn', ok', comp'))]_vars
+ImportsKept   == [][GenStep => ImportsKeptP(PostRec(meth', root', helpers', imports', warn', ok', comp'))]_vars
+DeclsKept     == [][GenStep => DeclsKeptP(PostRec(meth', root', helpers', imports', warn', ok', comp'))]_vars
+FilesParse    == [][GenStep => FilesParseP(PostRec(meth', root', helpers', imports', warn', ok', comp'))]_vars
+CompileKept   == [][GenStep => CompileKeptP(PostRec(meth', root', helpers', imports', warn', ok', comp'))]_vars
+Idempotent    == [][GenStep => IdempotentP(PostRec(meth', root', helpers', imports', warn', ok', comp')) /\ (dirty = "clean" => gen' = gen)]_vars
 
 \* C18: the output fingerprint is a function of (schema, cfg); nothing else is read
 Deterministic == [][GenStep => gen' = [s |-> schema', t |-> texists', c |-> cfg']]_vars
@@ -395,13 +423,13 @@ GenIsFunction == gen = [s |-> gen.s, t |-> gen.t, c |-> cfg] /\ (dirty = "clean"
 
 \* properties restricted to steps on which no deviation fired (edge export with Dev # {})
 NoDevStep == GenStep /\ act'.devs = {}
-MethodsKeptND == [][NoDevStep => MethodsKeptP(PostRec(meth', helpers', imports', warn', ok', comp'))]_vars
+MethodsKeptND == [][NoDevStep => MethodsKeptP(PostRec(meth', root', helpers', imports', warn', ok', comp'))]_vars
 FilesParseND  == [][NoDevStep => ok']_vars
 
 (* Explaining an observed (or modelled) post record by named deviations: the smallest D for which the  *)
 (* implementation-level successor GenResult(D) has the same resolver part; Blame(name, D): the members  *)
 (* of D that break the property by themselves (else: without which it would hold).                     *)
-ResPart(r) == [meth |-> r.meth, helpers |-> r.helpers, imports |-> r.imports, warn |-> r.warn, ok |-> r.ok]
+ResPart(r) == [meth |-> r.meth, root |-> r.root, helpers |-> r.helpers, imports |-> r.imports, warn |-> r.warn, ok |-> r.ok]
 Explaining(r) == {D \in SUBSET AllDevs : ResPart(GenResult(D)) = ResPart(r)}
 Smallest(Ds)  == CHOOSE D \in Ds : \A E \in Ds : Cardinality(D) <= Cardinality(E)
 Blame(name, D) ==
@@ -412,18 +440,18 @@ Blame(name, D) ==
 ----------------------------------------------------------------------------
 (* labelled edges of the state graph for replay into the real generator *)
 
-Proj(sc, te, cf, me, he, im, wa, ge, o, co, di, en) ==
-  [schema |-> sc, texists |-> te, cfg |-> cf, meth |-> me, helpers |-> he, imports |-> im, warn |-> wa,
+Proj(sc, te, cf, me, ro, he, im, wa, ge, o, co, di, en) ==
+  [schema |-> sc, texists |-> te, cfg |-> cf, meth |-> me, root |-> ro, helpers |-> he, imports |-> im, warn |-> wa,
    gen |-> ge, ok |-> o, comp |-> co, dirty |-> di, enc |-> en]
 
 EmitEdge ==
-  PrintT(ToJson([s |-> Proj(schema, texists, cfg, meth, helpers, imports, warn, gen, ok, comp, dirty, enc),
+  PrintT(ToJson([s |-> Proj(schema, texists, cfg, meth, root, helpers, imports, warn, gen, ok, comp, dirty, enc),
                  a |-> act',
-                 t |-> Proj(schema', texists', cfg', meth', helpers', imports', warn', gen', ok', comp', dirty', enc')]))
+                 t |-> Proj(schema', texists', cfg', meth', root', helpers', imports', warn', gen', ok', comp', dirty', enc')]))
 
 \* prints the initial states (CONSTRAINT in the edge-export configurations)
-EmitInit == (n = 0) => PrintT(ToJson([init |-> Proj(schema, texists, cfg, meth, helpers, imports, warn, gen, ok, comp, dirty, enc)]))
+EmitInit == (n = 0) => PrintT(ToJson([init |-> Proj(schema, texists, cfg, meth, root, helpers, imports, warn, gen, ok, comp, dirty, enc)]))
 
 \* exhaustive configurations: the history length and the label are not part of the state identity
-View == <<schema, texists, cfg, meth, helpers, imports, warn, gen, ok, comp, dirty, enc>>
+View == <<schema, texists, cfg, meth, root, helpers, imports, warn, gen, ok, comp, dirty, enc>>
 =============================================================================
